@@ -221,8 +221,10 @@ impl Engine for TwinSim {
         };
         if rng.chance(2, 3) {
             let ccfg = Cfg { property: (*rng.pick(&["C01", "C02", "C11", "C17", "C05", "C19", "C19"])).to_string(), tier: cfg.tier, seed: cfg.seed };
-            let main = chaingen::ChainSim.generate(rng, &ccfg);
+            let mut main = chaingen::ChainSim.generate(rng, &ccfg);
             let mut noise = chaingen::ChainSim.generate(rng, &ccfg);
+            main.focus = "C19".to_string();
+            noise.focus = "C19".to_string();
             // the noise instance is configured differently (another address prefix)
             noise.prefix = main.prefix.wrapping_add(1 + rng.below(3) as u8);
             let n = main.ops.len();
